@@ -113,6 +113,7 @@ type runner struct {
 	rowSeen  map[uint64]struct{}
 	samples  int
 	byOp     map[string]int64
+	seqElems int64
 }
 
 // runWave runs the programs and returns the groups of cases that produced no output.
@@ -141,7 +142,7 @@ func (r *runner) runWave(progs []*prog) [][]Case {
 				} else {
 					miss = append(miss, k)
 				}
-			case got != k.Want:
+			case !matches(&k, got):
 				r.fails = append(r.fails, failure{k: k, got: got})
 			}
 		}
@@ -223,6 +224,8 @@ func (f *failure) mode() string {
 		return "no output: " + normErr(f.err)
 	case f.none:
 		return "no output, no error (evaluation ends silently)"
+	case f.k.Site != nil:
+		return seqMode(&f.k, f.got)
 	case f.got == "PANIC":
 		return "panics where Go yields a value"
 	case f.k.Want == "PANIC":
@@ -246,6 +249,9 @@ func (f *failure) mode() string {
 // isolate a root cause come first.
 func (f *failure) trigger() string {
 	k := &f.k
+	if k.Site != nil {
+		return fmt.Sprintf("seq %s %s %s form=%s ctx=%s", k.Site.Fam, k.Op, kindClass(k.T), k.Form, k.Ctx)
+	}
 	if t := knownTrigger(k); t != "" {
 		return t
 	}
@@ -357,12 +363,15 @@ func (r *runner) report() {
 		src := program(single)
 		rep := map[string]any{"cases": single, "source": src, "expected": f.k.Want, "yaegi": f.got, "yaegi_error": f.err}
 		if e, bad := nerr[i]; bad {
-			c.SpecError("renderer produced a program the toolchain rejects or that prints nothing: %s\ncase %+v", e, f.k)
+			c.SpecError("renderer produced a program the toolchain rejects or that prints nothing: %s\ncase %s", e, descr(&f.k, ""))
 			continue
 		}
 		rep["native"] = nat[i]
-		if nat[i] != f.k.Want {
-			c.SpecError("table says %q, compiled Go prints %q for %+v", f.k.Want, nat[i], f.k)
+		if f.k.Site != nil {
+			rep["difference"] = seqDetail(&f.k, f.got)
+		}
+		if !matches(&f.k, nat[i]) {
+			c.SpecError("table says %q, compiled Go prints %q for %s", short(f.k.Want), short(nat[i]), descr(&f.k, nat[i]))
 			continue
 		}
 		c.DisagreeChk++
@@ -393,7 +402,7 @@ func run(c *fw.Ctx) error {
 	if err != nil {
 		return err
 	}
-	sel := &selector{full: !c.Quick(), seed: strconv.FormatInt(c.Seed, 10), rate: 200}
+	sel := &selector{full: !c.Quick(), seed: strconv.FormatInt(c.Seed, 10), rate: 200, siteRate: 1000}
 	r := &runner{c: c, rowSeen: map[uint64]struct{}{}}
 
 	// producer: enumerate -> programs -> waves
@@ -427,6 +436,17 @@ func run(c *fw.Ctx) error {
 			cur = append(cur, k)
 			if len(cur) >= perProgram {
 				flush()
+			}
+		})
+		flush()
+		// loop sites: their own programs (sites of one group share the operand tables)
+		elems := 0
+		enumerateSites(tb.sgroups, sel, func(k Case) {
+			cur = append(cur, k)
+			elems += len(k.Site.Tup)
+			if len(cur) >= 150 || elems >= 25000 {
+				flush()
+				elems = 0
 			}
 		})
 		flush()
@@ -481,6 +501,7 @@ func run(c *fw.Ctx) error {
 	c.Evaluations += r.cases - int64(len(r.rowSeen)) // Count() added one per distinct row
 	c.Extra["cases"] = r.cases
 	c.Extra["cases_by_class_and_operator"] = r.byOp
+	c.Extra["loop_site_evaluations"] = r.seqElems
 	c.Extra["programs"] = r.programs
 	c.Extra["bisection_runs"] = r.bisects
 	c.Extra["pinned_cases_of_excluded_constructs"] = len(pinned)
@@ -509,7 +530,12 @@ func (r *runner) account(cases []Case) {
 		if r.byOp == nil {
 			r.byOp = map[string]int64{}
 		}
-		r.byOp[k.Cls+" "+k.Op]++
+		if k.Site != nil {
+			r.byOp["seq "+k.Site.Fam]++
+			r.seqElems += int64(len(k.Site.Tup))
+		} else {
+			r.byOp[k.Cls+" "+k.Op]++
+		}
 		h := hash64(k.Row)
 		if _, ok := r.rowSeen[h]; !ok {
 			r.rowSeen[h] = struct{}{}
@@ -550,12 +576,18 @@ func buildTables(c *fw.Ctx) (*tables, error) {
 		module, spec, fams, invs string
 		workers                  int
 	}
+	// seeded affine permutation of the tuple alphabets of OpSeq (strides coprime with every alphabet size)
+	stride := []int{11, 13, 17, 19, 23}[int(((c.Seed%5)+5)%5)]
+	offset := int(((c.Seed*7)%997 + 997) % 997)
+	c.Extra["opseq_permutation"] = fmt.Sprintf("i -> ((i-1)*%d + %d) mod N + 1", stride, offset)
 	// 8 TLC worker threads in total (the machine is shared)
 	runs := []runSpec{
 		{"BV", "Spec", `{"div"}`, "TypeOK SaneDiv Emit", 3},
 		{"BV", "Spec", `{"arith", "unary", "conv", "strconv", "str", "bool"}`, "TypeOK SaneArith SaneUnary SaneConv SaneStr SaneStrConv Emit", 2},
 		{"BV", "Spec", `{"cmp", "shift"}`, "TypeOK SaneCmp SaneShift Emit", 2},
 		{"FloatSym", "FSpec", `{"farith", "fconv", "itof", "carith"}`, "SaneFArith SaneFConv SaneIToF SaneCArith FEmit", 1},
+		{"OpSeq", "SSpec", `{"sarith", "sdiv", "scmp", "sshift", "sunary", "sconv", "scmpfeed", "sbool", "sstr", "sfarith", "sfcmpfeed", "sfconv", "scomplex"}`,
+			"SeqCover HistoryFree RepsOK SEmit", 1},
 	}
 	var mu sync.Mutex
 	tb := &tables{}
@@ -568,11 +600,22 @@ func buildTables(c *fw.Ctx) (*tables, error) {
 		go func(i int, rs runSpec) {
 			defer wg.Done()
 			cfg := fmt.Sprintf("SPECIFICATION %s\nCONSTANTS Fams = %s Full = %s SampleIdx = %s\nINVARIANTS %s\n", rs.spec, rs.fams, full, idx, rs.invs)
+			if rs.module == "OpSeq" {
+				cfg = fmt.Sprintf("SPECIFICATION %s\nCONSTANTS Fams = %s Full = FALSE SampleIdx = {} Stride = %d Offset = %d\nINVARIANTS %s\n", rs.spec, rs.fams, stride, offset, rs.invs)
+			}
 			name := fmt.Sprintf("gen%d.cfg", i)
 			var local []*group
+			var slocal []*sgroup
 			res, err := c.TLC(fw.TLCOpts{Dir: "spec/num", Module: rs.module, Cfg: name, Files: map[string][]byte{name: []byte(cfg)},
 				Workers: rs.workers, Timeout: 8 * time.Minute, HeapMB: 3000,
 				OnBeh: func(raw json.RawMessage) {
+					if rs.module == "OpSeq" {
+						g := &sgroup{}
+						if err := json.Unmarshal(raw, g); err == nil {
+							slocal = append(slocal, g)
+						}
+						return
+					}
 					g := &group{}
 					if err := json.Unmarshal(raw, g); err == nil {
 						local = append(local, g)
@@ -589,6 +632,7 @@ func buildTables(c *fw.Ctx) (*tables, error) {
 			walls[i] = res.Wall.Seconds()
 			mu.Lock()
 			tb.groups = append(tb.groups, local...)
+			tb.sgroups = append(tb.sgroups, slocal...)
 			mu.Unlock()
 		}(i, rs)
 	}
@@ -610,6 +654,11 @@ func buildTables(c *fw.Ctx) (*tables, error) {
 			return rowSortKey(g.Rows[i]) < rowSortKey(g.Rows[j])
 		})
 	}
+	sort.SliceStable(tb.sgroups, func(i, j int) bool {
+		a, b := tb.sgroups[i], tb.sgroups[j]
+		return a.Fam+"|"+a.F+"|"+kname(a.K) < b.Fam+"|"+b.F+"|"+kname(b.K)
+	})
+	c.Extra["opseq_site_groups"] = len(tb.sgroups)
 	rows := 0
 	for _, g := range tb.groups {
 		rows += len(g.Rows)
@@ -686,10 +735,10 @@ func validateNative(c *fw.Ctx, tb *tables, sample []*prog) error {
 		lines := parseOut(nr.Stdout)
 		for _, k := range chunks[i] {
 			checked++
-			if got, ok := lines[k.ID]; !ok || got != k.Want {
+			if got, ok := lines[k.ID]; !ok || !matches(&k, got) {
 				bad++
 				if bad < 10 {
-					c.SpecError("native validation: table says %q, compiled Go prints %q for %+v", k.Want, got, k)
+					c.SpecError("native validation: table says %q, compiled Go prints %q for %s", short(k.Want), short(got), descr(&k, got))
 				}
 			}
 		}
@@ -730,4 +779,20 @@ func replay(c *fw.Ctx) error {
 	}
 	r.report()
 	return nil
+}
+
+func short(s string) string {
+	if len(s) > 120 {
+		return s[:120] + "..."
+	}
+	return s
+}
+
+// descr describes a case in an error text (a loop site without its tables).
+func descr(k *Case, got string) string {
+	if k.Site == nil {
+		return fmt.Sprintf("%+v", *k)
+	}
+	return fmt.Sprintf("loop site %s op=%s t=%s t2=%s form=%s ctx=%s a=%s b=%s body=%q difference=%v",
+		k.Site.Fam, k.Op, k.T, k.T2, k.Form, k.Ctx, k.A, k.B, k.Site.Body, seqDetail(k, got))
 }
